@@ -77,6 +77,17 @@ var c04Inputs = []string{
 	"m1 = {1: 1}; func rm(k) { m1[k] }; println(rm(1)); m1[1] = 2; println(rm(1))",
 	"func two(x) { println(\"two\", x); x }; println(two(1) + two(1)); println(two(1.0))",
 	"func va(a, ..) { println(\"va\"); len(..) }; println(va(1, 2), va(1, 2), va(1), va(1, [2]))",
+	// a mutable global read two calls deep; a function that rebinds a global function; -0.0 nested in containers
+	"func viaRd() { rd() }; println(catch(viaRd()))",
+	"gl = 1; func rd() { gl }; func viaRd() { rd() }; println(viaRd())",
+	"println(catch(viaRd()))",
+	"func viaRd2() { viaRd() + 0 }; println(catch(viaRd2()))",
+	"tg = func() { 1 }; toggle = func() { if tg() == 1 { tg = func() { 2 } } else { tg = func() { 1 } }; tg() }",
+	"println(toggle()); println(toggle()); println(toggle())",
+	"println(1 / id([0.0])[0]); println(1 / id([-0.0])[0]); println(1 / id({1: 0.0})[1]); println(1 / id({1: -0.0})[1])",
+	"func deep(x) { pr(x) + outer(x) }; println(deep(1)); println(deep(1))",
+	"func setg(v) { gl2 = v }; gl2 = 0; setg(7); println(gl2); gl2 = 1; setg(7); println(gl2)",
+	"func s5v(a, b, c, d, e) { e }; println(s5v(1, 2, 3, 4, 5), s5v(1, 2, 3, 4, 6))",
 }
 
 type c04Cfg struct{ noReg bool }
